@@ -14,6 +14,7 @@ mod moracle;
 mod mrun;
 mod mtypes;
 mod mworld;
+mod uworld;
 
 
 use simcore::cli::*;
@@ -87,14 +88,42 @@ fn check(id: &str, args: &[String]) -> i32 {
         known,
         corpus_dir: Some(vd.join("corpus").join(id)),
     };
-    if is_managed(id) {
+    if id == "C10" {
+        // managed half, then the unmanaged pool's single timeout
+        let mut cfg = cfg;
+        cfg.secs = secs * 0.6;
+        let h = mharness::Managed;
+        let r = run_batch(&h, &cfg);
+        if r.found.is_some() || r.harness_error.is_some() {
+            return finish(&h, id, &tier, seed, &m, r, real_vs_stub_managed(), assumptions_managed());
+        }
+        let hu = uworld::Unmanaged;
+        cfg.secs = secs * 0.4;
+        let mut ru = run_batch(&hu, &cfg);
+        ru.agg.merge(r.agg);
+        ru.wall_s += r.wall_s;
+        ru.known_hits.extend(r.known_hits);
+        finish(&hu, id, &tier, seed, &m, ru, real_vs_stub_managed(), assumptions_managed())
+    } else if is_managed(id) {
         let h = mharness::Managed;
         let r = run_batch(&h, &cfg);
         finish(&h, id, &tier, seed, &m, r, real_vs_stub_managed(), assumptions_managed())
+    } else if matches!(id, "C05" | "C12") {
+        let h = uworld::Unmanaged;
+        let r = run_batch(&h, &cfg);
+        finish(&h, id, &tier, seed, &m, r, real_vs_stub_unmanaged(), assumptions_managed())
     } else {
         eprintln!("harness error: unknown property {id}");
         2
     }
+}
+
+fn real_vs_stub_unmanaged() -> serde_json::Value {
+    json!({
+        "real": ["deadpool::unmanaged (Pool, Object)", "deadpool_runtime::Runtime::timeout (Tokio1 branch)", "tokio::sync::Semaphore (both semaphores)", "tokio time driver on a paused clock"],
+        "simulated": ["OS thread scheduling (coroutines + seeded controller)", "wall clock"],
+        "not_exercised": ["async-std runtime branch"]
+    })
 }
 
 fn replay(path: &str, quiet: bool) -> i32 {
@@ -114,6 +143,16 @@ fn replay(path: &str, quiet: bool) -> i32 {
     };
     let harness = v["harness"].as_str().unwrap_or("");
     match harness {
+        "dsim-unmanaged" => {
+            let rf: ReplayFile<uworld::UScenario> = match serde_json::from_value(v) {
+                Ok(r) => r,
+                Err(e) => {
+                    eprintln!("harness error: {e}");
+                    return 2;
+                }
+            };
+            do_replay(&uworld::Unmanaged, &rf, path, quiet)
+        }
         "dsim-managed" => {
             let rf: ReplayFile<mtypes::MScenario> = match serde_json::from_value(v) {
                 Ok(r) => r,
@@ -136,12 +175,14 @@ fn replay(path: &str, quiet: bool) -> i32 {
 fn selfcheck(id: &str, args: &[String]) -> i32 {
     let runs: u64 = arg_val(args, "--runs").and_then(|s| s.parse().ok()).unwrap_or(10_000);
     let seed: u64 = std::env::var("VERIF_SEED").ok().and_then(|s| s.parse().ok()).unwrap_or(20260926);
-    if !is_managed(id) {
+    let r = if matches!(id, "C05" | "C12") {
+        selfcheck_with(&uworld::Unmanaged, id, seed, runs)
+    } else if is_managed(id) {
+        selfcheck_with(&mharness::Managed, id, seed, runs)
+    } else {
         eprintln!("harness error: unknown property {id}");
         return 2;
-    }
-    let h = mharness::Managed;
-    let r = selfcheck_with(&h, id, seed, runs);
+    };
     if r == 0 {
         println!("selfcheck {id}: {runs} seeds x 2 runs (different workers, fresh replays) identical");
     }
